@@ -110,3 +110,7 @@ Theorem C18_decided_atomic_updates : Decide_atomic_stmt.                 Proof. 
 Print Assumptions C18_decided_atomic_updates.
 Theorem C18_source_atomic_updates_single_rmw : SourceAtomicUpdatesSingleRmw_stmt. Proof. exact source_atomic_updates_single_rmw. Qed.
 Print Assumptions C18_source_atomic_updates_single_rmw.
+(* the documented process-wide configuration (Rational::flags, the module of rmint, StaticElement::_domain, the generator seeds) is not
+   thread_local in the current source: a setting made by the main thread is the one every thread reads *)
+Theorem C18_decided_process_wide_not_thread_local : Decide_tls_stmt.     Proof. exact decide_tls. Qed.
+Print Assumptions C18_decided_process_wide_not_thread_local.
